@@ -508,6 +508,16 @@ def h_layer(X, K, sizes, addons, framings):
         X.check(not kept, f"C07/stream/{direction}/kept-without-store", f"store_streamed_bodies off, but the flow keeps {kept!r}")
 
 
+def _h2_flow_control():
+    from props import C05
+
+    return Symx("h2-relay-under-flow-control", lambda X: C05.h_schedule(X, C05.Cfg(shapes=["H", "H"], resp=["HDT", "HD"], splits=0, window=4)),
+                bounds="2 HTTP/2 client streams, response bodies larger than the client's 4-byte INITIAL_WINDOW_SIZE (one with trailers); every interleaving of "
+                       "response frames and <= 2 WINDOW_UPDATEs (1 or 64 bytes) per stream (C05's h2-flow-control schedule)",
+                encoded=ENCODED + ["mitmproxy.proxy.layers.http._http_h2:BufferedH2Connection.stream_window_updated", "mitmproxy.proxy.layers.http._http_h2:BufferedH2Connection.send_data"],
+                must_reach=["end", "answered", "window-update"], parallel_depth=4)
+
+
 def obligations(tier):
     q = tier == "quick"
     K = 3 if q else 4
@@ -526,4 +536,8 @@ def obligations(tier):
         Symx("limits-and-streaming", lambda X: h_layer(X, K, sizes, ADDON, framings),
              bounds=f"L, T symbolic in [0, 2^40] (set/unset) x direction x framing {framings} x store_streamed_bodies x <= {K} chunks with sizes from {sizes} x addon stream in {ADDON}",
              encoded=ENCODED[1:], must_reach=reach, stubs=stubs, parallel_depth=4),
+        # relaying a body to an HTTP/2 peer under flow control (the bytes must arrive complete and in order): the HTTP/2
+        # half of "the peer receives exactly the received bytes ... in order" is decided by C05's flow-control schedule
+        # (same harness, imported), because the mechanism (BufferedH2Connection) is shared
+        _h2_flow_control(),
     ]
